@@ -25,13 +25,21 @@ def cases(ctx):
                     _, seq, n = ans.split(' ')
                     return (f's:csv_ok 2 {seq} {n}', 'ok 1')
                 yield Case(f'seq 513 {v} {blk}', 's', nontrivial=nt, tag='csv', spec=spec2)
+    absvals = [0, 1, 500000000, 65536, 2 ** 32, 499999999, 500000001, 800000, 1610612736, 1 << 22, (1 << 22) - 1, 2 ** 31, 2 ** 32 - 1]
+    absvals += [rng.getrandbits(32) for _ in range(ctx.n(60, 3000))] + [rng.randrange(0, 10 ** 6) for _ in range(ctx.n(30, 1000))]
     for ty in (0x101, 0x301, 0, 7):
-        for v in (0, 1, 500000000, 65536, 2 ** 32):
-            def spec3(ans, ty=ty):
-                if ty in (0x101, 0x301) and ans.startswith('ok '):
-                    return (f's:nonfinal {ans.split(" ")[1]}', 'ok 1')
-                return (None, None)
-            yield Case(f'seq {ty} {v} 1', 'gs' if ty in (0x101, 0x301) else 'g', nontrivial=True, tag='abs', spec=spec3)
+        for v in absvals:
+            for blk in (1, 0):     # the unit flag is meaningless for these types: a unix-time CLTV is naturally built with False
+                def spec3(ans, ty=ty):
+                    if ty in (0x101, 0x301) and ans.startswith('ok '):
+                        return (f's:nonfinal {ans.split(" ")[1]}', 'ok 1')
+                    return (None, None)
+                yield Case(f'seq {ty} {v} {blk}', 'gs' if ty in (0x101, 0x301) else 'g', nontrivial=True, tag='abs', spec=spec3)
+                if ty == 0x101 and 0 <= v < 2 ** 32:
+                    # BIP65: the number the helper puts before OP_CHECKLOCKTIMEVERIFY is the value itself, so that a
+                    # transaction whose nLockTime is Locktime(v) satisfies it
+                    yield Case(f'seq {ty} {v} {blk}', 's', nontrivial=True, tag='cltv',
+                               spec=lambda ans, v=v: ('s:raw ' + (ans.rsplit(' ', 1)[0] + f' {v}' if ans.startswith('ok ') else 'ok'), ans))
     lts = [0, 1, 499999999, 500000000, 500000001, 2 ** 31 - 1, 2 ** 31, 2 ** 32 - 1, 2 ** 32, 2 ** 32 + 1, -1, 2 ** 40]
     lts += [rng.getrandbits(32) for _ in range(ctx.n(2000, 100000))]
     for v in lts:
